@@ -168,7 +168,11 @@ func (rc *RunCtx) Fault(name string)           { rc.faults[name]++ }
 func (rc *RunCtx) Logf(format string, a ...interface{}) {
 	rc.logMu.Lock()
 	fmt.Fprintf(&rc.log, "%10.6f ", time.Since(rc.start).Seconds())
-	fmt.Fprintf(&rc.log, format, a...)
+	line := fmt.Sprintf(format, a...)
+	if rc.Dir != "" && strings.Contains(line, rc.Dir) {
+		line = strings.ReplaceAll(line, rc.Dir, "$DIR") // keep the log (and its digest) independent of the process id
+	}
+	rc.log.WriteString(line)
 	rc.log.WriteByte('\n')
 	rc.logMu.Unlock()
 }
